@@ -417,3 +417,12 @@ def dict_keys_facts(m):
                   patterns=[z3.MultiPattern(ks[k], ks[k2])]),
         z3.ForAll([o], z3.Implies(m[o] != ABSENT, Contains(ks, o)), patterns=[m[o]]),
     ]
+
+
+def ForAllP(vs, body, patterns=()):
+    """ForAll with trigger patterns where z3 accepts them (a pattern that contains an if-then-else or an interpreted
+    head, e.g. a select over a store that simplified, is rejected): fall back to z3's own trigger inference."""
+    try:
+        return z3.ForAll(vs, body, patterns=list(patterns))
+    except z3.Z3Exception:
+        return z3.ForAll(vs, body)
